@@ -163,6 +163,14 @@ class _Tr:
                             self.fail("formatting.%s.%s uses __dict__" % (cname, m.name), n)
                 elif isinstance(m, ast.Expr) and _is_const(m.value, str):
                     continue
+                elif (isinstance(m, ast.Assign) and len(m.targets) == 1 and _is_name(m.targets[0])
+                      and not m.targets[0].id.startswith("__") and m.targets[0].id not in ("normalize", "pretty_print")
+                      and not any(_is_name(n) and n.id in ("setattr", "delattr", "vars", "globals", "locals") for n in ast.walk(m.value))):
+                    # a class constant (a table, a compiled pattern): it can shadow neither the instance attributes read
+                    # here (normalize, pretty_print: excluded by name) nor a method (methods are read from the defs)
+                    if any(isinstance(x, ast.FunctionDef) and x.name == m.targets[0].id for x in cls.body):
+                        self.fail("formatting.%s: %s is both a class constant and a method" % (cname, m.targets[0].id), m)
+                    continue
                 else:
                     self.fail("formatting.%s: class-level statement is not understood" % cname, m)
             if init is None:
